@@ -133,6 +133,9 @@ def gen_jacobian(r, Ls, n):
 def lu_case(r, kind, L, csc, n, blocks, es, garbage=None):
     av = G.diag_dominant_values(r, n, es, blocks)
     b = [G.gen_value(r, "any") for _ in range(blocks * n)]
+    if r.chance(0.35):
+        # right-hand sides with exact zeros, placed differently from block to block (inactive species in some cells)
+        b = [0.0 if r.chance(0.5) else v for v in b]
     if r.chance(0.15):
         # badly scaled but perfectly conditioned systems: pivots far below machine epsilon (or huge) in absolute terms
         sc = r.pick([2.0 ** -60, 1e-17, 1e-30, 1e-150, 1e20, 1e150])
@@ -1398,13 +1401,14 @@ def g_c13(r, tier, env, Ls):
     for _ in range(n):
         kind = r.below(4); L = r.pick(Ls); csc = r.below(2); nn = r.rng(1, 6)
         es = G.gen_pattern(r, nn, density=r.unit() * 0.5)
-        av1 = G.diag_dominant_values(r, nn, es, 1); b1 = [G.gen_value(r, "any") for _ in range(nn)]
+        zeros = r.chance(0.4)
+        av1 = G.diag_dominant_values(r, nn, es, 1); b1 = [(0.0 if (zeros and r.chance(0.4)) else G.gen_value(r, "any")) for _ in range(nn)]
         for _ in range(3):
             blocks = r.rng(1, 2 * max(L, 1) + 1); pos = r.below(blocks)
             av = []; b = []
             for bl in range(blocks):
                 if bl == pos: av += av1; b += b1
-                else: av += G.diag_dominant_values(r, nn, es, 1); b += [G.gen_value(r, "any") for _ in range(nn)]
+                else: av += G.diag_dominant_values(r, nn, es, 1); b += [(0.0 if (zeros and r.chance(0.6)) else G.gen_value(r, "any")) for _ in range(nn)]
             line = " ".join(["lu", str(kind), str(nn), str(csc), str(L), str(blocks)] + G.pairs_tokens(es) + [hexd(v) for v in av] + [hexd(0.0)] + [hexd(v) for v in b])
             c = Case(line, dict(pos=pos, key="x", ns=nn, ncell=blocks), "lu-cell", group=(("c13", gid), grp_cell), tags=["L=%d" % L, "lu", "kind=%d" % kind])
             if L and blocks % L: c.tags.append("partial_group")
